@@ -18,6 +18,7 @@ sys.path.insert(0, os.path.join(VERIF, 'sweep'))
 
 # rule -> id of the seed used as its violating fixture
 FIXTURE_SEED = {
+    'HEAPMASK': 'HM2-place-or-instead-of-and',
     'DESCENT': 'D1-search-value-arms',
     'NULL': 'D6-set-index-after-unguarded',
     'LIVE': 'L2-list-retain-ge',
